@@ -144,6 +144,9 @@ def mc_find(run, cfg, consts, name, timeout=600):
 def mc_locktable(run):
     res = run.tlc_mc("LockTable", "MC_LockTable.cfg", name="mc_locktable", workers=2, timeout=300)
     res["cfg"] = "MC_LockTable.cfg"
+    # beyond the bounded model: Exclusive / IdleHoldNothing as an inductive invariant of the set-based restatement of the
+    # lock table (behaviours of any length; Apalache). Supplementary: never decides, a missing tool is recorded as skipped
+    run.apalache_inductive("LockTableInd.tla")
     return res
 
 
